@@ -419,6 +419,59 @@ class LongHistory(Part):
         return res
 
 
+class LongLines(Part):
+    name = "long_lines_roundtrip"
+    desc = "lines just below 2^k characters (k = 10..17) packed with short addresses, whose anonymized form is longer: anonymize, then undo with a fresh anonymizer, token by token"
+
+    def __init__(self, tier, seed):
+        self.tier, self.seed = tier, seed
+
+    def cases(self):
+        return [{"k": k, "B": B, "salt": "saltForTest"} for k in range(10, 18) for B in (0, 8)]
+
+    def run(self, cfg):
+        import io
+
+        from netconan.anonymize_files import FileAnonymizer
+
+        res = Res()
+        n = (1 << cfg["k"]) // 8 - 3
+        addrs = [(1 << 24) + ((i * 2654435761) % 250) * 65536 + (i % 9) + 1 for i in range(n)]     # "1.x.0.y"
+        ref = ipdom.make_v4(["md5", cfg["salt"]], cfg["B"], None, None)
+        line = " ".join(refs.v4_text(a) for a in addrs)
+        text = "head 2.3.4.5\n" + line + "\ntail 2.3.4.5 end\n"
+        kw = dict(anon_pwd=False, salt=cfg["salt"], preserve_suffix_v4=cfg["B"], preserve_suffix_v6=cfg["B"])
+        with seams.capture_logs():
+            fwd, back = io.StringIO(), io.StringIO()
+            FileAnonymizer(anon_ip=True, **kw).anonymize_io(io.StringIO(text), fwd)
+            FileAnonymizer(anon_ip=False, undo_ip_anon=True, **kw).anonymize_io(io.StringIO(fwd.getvalue()), back)
+        fl, bl = fwd.getvalue().split("\n"), back.getvalue().split("\n")
+        res.transitions += 2
+        res.states += 1
+        if len(fl) != 4 or len(bl) != 4:
+            res.violation("line-count-changed|long-line", "k=%d: %d / %d lines" % (cfg["k"], len(fl), len(bl)), cfg)
+            return res
+        ft, bt = fl[1].split(" "), bl[1].split(" ")
+        res.out((len(fl[1]) > len(line), len(ft) == n))
+        res.nt((cfg["k"], cfg["B"]))
+        if len(ft) != n or len(bt) != n:
+            res.violation("token-count-changed|long-line", "k=%d: %d tokens in, %d anonymized, %d undone" % (
+                cfg["k"], n, len(ft), len(bt)), cfg)
+            return res
+        for i, a in enumerate(addrs):
+            res.evals += 1
+            img = ref.anonymize(a)
+            want_f = refs.v4_text(img)
+            want_b = refs.v4_text(img) if refs.is_mask32(img) else refs.v4_text(a)
+            if ft[i] != want_f or bt[i] != want_b:
+                res.violation("long-line-roundtrip-wrong|%s" % ("anonymize" if ft[i] != want_f else "undo"),
+                              "line of %d characters (anonymized %d), token %d at offset ~%d: %s -> %s -> %s, expected %s -> %s" % (
+                                  len(line), len(fl[1]), i, len(" ".join(ft[:i])), refs.v4_text(a), ft[i], bt[i], want_f, want_b), cfg)
+                break
+        res.samples.append({"k": cfg["k"], "B": cfg["B"], "addresses": n, "line_chars": len(line), "anonymized_chars": len(fl[1])})
+        return res
+
+
 def parts(tier, seed):
     return [GraphPart(tier, seed), ColdInversePart(tier, seed), LinePart(tier, seed), LongHistory(tier, seed),
-            FilePart(tier, seed)]
+            FilePart(tier, seed), LongLines(tier, seed)]
